@@ -133,6 +133,11 @@ pub fn step_strategy(reg: Reg, class_c: bool, allow_join: bool) -> impl Strategy
     proptest::strategy::Union::new_weighted(v)
 }
 
+/// SNR the radio reports for received frames: usually plausible, sometimes anything an i8 can hold
+pub fn snr_strategy() -> impl Strategy<Value = i8> {
+    prop_oneof![4 => -20i8..=12, 1 => Just(31i8), 1 => Just(32i8), 1 => Just(-32i8), 1 => Just(-33i8), 1 => Just(127i8), 1 => Just(-128i8), 2 => any::<i8>()]
+}
+
 pub fn cfg_strategy() -> impl Strategy<Value = DevCfg> {
     (0usize..9, 0usize..3, proptest::option::weighted(0.4, (1u8..=8, prop_oneof![Just(1usize), 2usize..5])), 0usize..BOARDS.len()).prop_map(|(ri, fk, bias, b)| {
         let region = REGIONS[ri];
@@ -142,13 +147,13 @@ pub fn cfg_strategy() -> impl Strategy<Value = DevCfg> {
 
 /// general random histories: OTAA (join first) or ABP, any region / front-end
 pub fn history_strategy(max_steps: usize) -> impl Strategy<Value = History> {
-    (cfg_strategy(), any::<bool>(), any::<u64>(), proptest::collection::vec(any::<u32>(), 0..6), any::<bool>()).prop_flat_map(move |(cfg, otaa, seed, script, nb_async)| {
+    (cfg_strategy(), any::<bool>(), any::<u64>(), proptest::collection::vec(any::<u32>(), 0..6), (any::<bool>(), snr_strategy())).prop_flat_map(move |(cfg, otaa, seed, script, (nb_async, snr))| {
         let reg = Reg::from_name(cfg.region.name()).unwrap();
         let class_c = cfg.front == FrontKind::AsyncClassC;
         let first = if otaa { join_accept_strategy(reg, true).prop_map(|r| vec![Step::Join(RxPlan::rx1(r))]).boxed() } else { Just(vec![]).boxed() };
         (first, proptest::collection::vec(step_strategy(reg, class_c, true), 1..=max_steps)).prop_map(move |(mut pre, steps)| {
             pre.extend(steps);
-            History { cfg: cfg.clone(), activation: if otaa { Activation::Otaa } else { Activation::Abp { fcnt_up: 0, fcnt_down: None } }, board: Board { nb_async_tx: nb_async, ..Default::default() }, rng_script: script.clone(), rng_seed: seed, steps: pre }
+            History { cfg: cfg.clone(), activation: if otaa { Activation::Otaa } else { Activation::Abp { fcnt_up: 0, fcnt_down: None } }, board: Board { nb_async_tx: nb_async, snr, ..Default::default() }, rng_script: script.clone(), rng_seed: seed, steps: pre }
         })
     })
 }
